@@ -257,7 +257,7 @@ pub fn check_dev(c: &DevCase) -> Verdict {
         let spec = ElfSpec {
             class64: true, little: true, text_len: 300, text_seed: i as u64, build_id: if kind % 4 == 0 { Some(vec![i as u8 + 1; 20]) } else { None },
             note_phdr: true, note_section: true, note_align: 4, other_notes: 0, soname: Some(format!("libdev{i}.so")), dyn_phdr: true, dyn_section: true, dyn_order: 0,
-            sections: kind % 4 == 0, extra_phdrs: 0, pages: 2, seg2_delta_pages: 0, empty_note_first: false, shstr_rotation: 0, decoy_before: 0, decoy_after: false,
+            sections: kind % 4 == 0, extra_phdrs: 0, pages: 2, seg2_delta_pages: 0, empty_note_first: false, shstr_rotation: 0, decoy_before: 0, decoy_after: false, dyn_link: 0,
         };
         let mut bytes = build(&spec).bytes;
         match kind % 4 {
